@@ -104,25 +104,29 @@ fn run_seq(tuftool: &str, c: &Value, setup: &[u8]) -> Value {
     // prefix: init, thresholds 1 (done once per run by tuftool itself, then copied)
     let setup_ok = !setup.is_empty();
     std::fs::write(&root, setup).unwrap();
-    // the other root for --cross-sign: root key 1, threshold 1, built and signed independently
-    let k1 = &keys[0];
+    // the other root for --cross-sign: root keys 1 and 2, threshold 1, built independently and
+    // signed by key 2 (RootCli.tla: CrossRootKeys, CrossSigs)
+    let (k1, k2) = (keys.iter().find(|k| k.n == 1).unwrap(), keys.iter().find(|k| k.n == 2).unwrap());
     let other = dir.path().join("other.json");
     {
-        let mut pubk = k1.k.public.clone();
-        // use the library's spelling of the key so that key ids agree
-        if let Ok(kp) = tough::sign::parse_keypair(&k1.k.private_file) {
-            use tough::sign::Sign;
-            pubk = serde_json::to_value(kp.tuf_key()).unwrap();
-        }
         let mut km = Map::new();
-        km.insert(k1.lib_id.clone(), pubk);
-        let ids = vec![k1.lib_id.clone()];
+        for k in [k1, k2] {
+            let mut pubk = k.k.public.clone();
+            // use the library's spelling of the key so that key ids agree
+            if let Ok(kp) = tough::sign::parse_keypair(&k.k.private_file) {
+                use tough::sign::Sign;
+                pubk = serde_json::to_value(kp.tuf_key()).unwrap();
+            }
+            km.insert(k.lib_id.clone(), pubk);
+        }
+        let ids = vec![k1.lib_id.clone(), k2.lib_id.clone()];
+        let one = vec![k1.lib_id.clone()];
         let signed = json!({"_type":"root","spec_version":"1.0.0","consistent_snapshot":true,"version":1,
             "expires": rfc3339(BASE_TIME), "keys": km,
-            "roles": {"root": role_keys_json(&ids, 1), "timestamp": role_keys_json(&ids, 1),
-                      "snapshot": role_keys_json(&ids, 1), "targets": role_keys_json(&ids, 1)}});
+            "roles": {"root": role_keys_json(&ids, 1), "timestamp": role_keys_json(&one, 1),
+                      "snapshot": role_keys_json(&one, 1), "targets": role_keys_json(&one, 1)}});
         let msg = canon(&signed);
-        let env = json!({"signed": signed, "signatures": [{"keyid": k1.lib_id, "sig": hex::encode(k1.k.sign(&msg))}]});
+        let env = json!({"signed": signed, "signatures": [{"keyid": k2.lib_id, "sig": hex::encode(k2.k.sign(&msg))}]});
         std::fs::write(&other, to_bytes(&env)).unwrap();
     }
     let key_arg = |n: u64| keys.iter().find(|k| k.n == n).unwrap().file.to_str().unwrap().to_string();
